@@ -59,6 +59,31 @@ def gen_cases(gb, rng, tier):
                                   proto=proto, mode='sync', edits=[list(map(str, e)) for e in edits], top_unknown=top_unknown, key=key,
                                   writer_schema=wtxt, nontrivial=True, model=True, companions=[twin] if proto == 'binary' else []))
             cases.append(twin)
+        # directed: a retained chunk on both sides of the 4096-byte zero-copy threshold (the LinkedBytes writers attach such a
+        # payload as a node of its own), after a known field, so that bytes are pending when it is re-emitted
+        if d['kind'] == 'struct' and genrun.keeps(sch, tname) and d['fields'] and not genrun.is_arg_swallow(sch, 'keep', tname, 'sync'):
+            for big in ((4089, 4090) if tier == 'quick' else (4000, 4088, 4089, 4090, 4091, 9000)):
+                W = sch.copy()
+                dw = W.types[tname]
+                used = {f['id'] for f in dw['fields']}
+                free = [i for i in genevo.NEW_IDS if i not in used]
+                if not free:
+                    continue
+                nf = dict(id=free[0], name='added', req='required', ty=('binary',), lit=None, default=None, const=None, doc=None, ann={},
+                          idl_req='required')
+                dw['fields'].insert(rng.randrange(1, len(dw['fields']) + 1), nf)
+                v = gengen.gen_value(rng, W, ty, 2)
+                v[nf['id']] = bytes(rng.randrange(256) for _ in range(big))      # chunk = 3 header + 4 length + payload bytes
+                want = gengen.show(W, ty, gengen.fill_defaults(W, ty, v))
+                enc = genref.encode(W, ty, v, 'binary')
+                known = {f['id'] for f in d['fields']}
+                top_unknown = b''.join(b for fid, b in genref.Enc(W, 'binary').struct_fields(tname, v) if fid not in known).hex()
+                key = 'k%d_%s' % (len(cases), tname)
+                wtxt = gengen.schema_txt(restrict(W, tname))
+                for proto in PROTOS:
+                    cases.append(dict(line=genrun.case_line('renc', 'keep', tname, proto, 'sync', enc), want=want, cfg='keep', type=tname,
+                                      proto=proto, mode='sync', edits=[['add-big', tname, str(nf['id']), str(big)]], top_unknown=top_unknown,
+                                      key=key, writer_schema=wtxt, nontrivial=True, model=False))
     return cases
 
 
@@ -144,7 +169,7 @@ def evaluate(gb, case, out):
     if res.kind != 'ok' or res.enc is None:
         return [('decode + re-encode with retention does not succeed on a message of a richer writer schema: %s' % res.line[:200], cls)]
     if res.note:
-        return [('unchecked writer: ' + res.note, cls)]
+        return [('writer flavours disagree: ' + res.note, cls)]
     W = writer_schema(gb, case)
     try:
         v2, n, notes = genref.decode(W, ty, res.enc, 'binary')
